@@ -42,7 +42,7 @@ CHECKS = {
    note="independent decoder, reflex.rs and refsem.rs; on lexically invalid text the implementation's own token boundaries are accepted (tiling is C06's job)", ref="4/C15"),
  "C16": dict(technique="bounded-exhaustive enumeration of well-typed programs x layouts x every byte position of the classified white-space gaps through the real completion handler; expected label sets from the reference scopes",
    text="at every position of every gap that is a statement start (incl. before closing braces and brace-less branches), follows := or the ( of a call/if/while, follows : in a parameter/variable declaration, or lies between global declarations: VARIABLE labels = parameters+locals of the enclosing procedure, FUNCTION labels = declared+predefined procedures (statement starts), STRUCT labels = declared types + int (type positions), only declaration starters at top level",
-   note="scopes from refsem.rs; positions directly behind a token (cursor touching it) are not gap positions; keyword/snippet items ignored except at top level; one position class is a known finding", ref="4/C16"),
+   note="scopes from refsem.rs; positions directly behind a token (cursor touching it) are not gap positions; keyword/snippet items ignored except at top level", ref="4/C16"),
  "C17": dict(technique="bounded-exhaustive enumeration of programs x layouts x comment placements through the real foldingRange handler; expected folds by construction",
    text="one fold per procedure, in source order, from the line of `proc` to the line of its last token for every generated program x layout x comment-gap variant; well-formedness (start<=end, inside document, non-overlapping) for every token soup up to 3/4 tokens",
    note="line numbers from the independent text model lsptext.rs", ref="4/C17"),
